@@ -170,6 +170,7 @@ type cenv struct {
 	sc        *scriptedCloser
 	hopener   *hystrix.Opener
 	viewing   bool // a diagnostic view is being read (see op `view`)
+	ctorOnly  bool // every setting was given at construction: no live re-application (see direct=1)
 	hcloser   *hystrix.Closer
 	copener   *simplelogic.ConsecutiveErrOpener
 	callbacks []func()
@@ -286,6 +287,37 @@ func newCenvWith(h map[string]string, mgr *circuit.Manager) *cenv {
 	}
 	if mgr != nil {
 		e.c = mgr.MustCreateCircuit("c", cfg)
+	} else if h["direct"] == "1" {
+		// DIRECT construction, and the SAME Config value — collector slices with spare capacity included — builds a
+		// second circuit afterwards: nothing the second constructor does may reach into the first circuit (its
+		// collector lists, its logic objects).  The sibling reports to the same recorders (logs are per op).
+		spare := func() {
+			cfg.Metrics.Run = append(make([]circuit.RunMetrics, 0, len(cfg.Metrics.Run)+6), cfg.Metrics.Run...)
+			cfg.Metrics.Fallback = append(make([]circuit.FallbackMetrics, 0, len(cfg.Metrics.Fallback)+6), cfg.Metrics.Fallback...)
+			cfg.Metrics.Circuit = append(make([]circuit.Metrics, 0, len(cfg.Metrics.Circuit)+6), cfg.Metrics.Circuit...)
+		}
+		addRec(&cfg, e.recs[1])
+		spare()
+		cfg.General.ForceOpen, cfg.General.ForcedClosed = getB(h, "fo", false), getB(h, "fc", false)
+		cfg.Execution.IgnoreInterrupts = getB(h, "ii", false)
+		applyCfg(&cfg, map[string]string{"iei": h["iei"]})
+		// the numeric settings too are given AT CONSTRUCTION when they are not 0 (0 = "unset" there: the default applies);
+		// if all three are, nothing is re-applied live afterwards — what was constructed is what runs
+		ctorAll := true
+		for _, k := range []string{"to", "mc", "fbmc"} {
+			if v := getI(h, k, 0); v != 0 {
+				applyCfg(&cfg, map[string]string{k: h[k]})
+			} else {
+				ctorAll = false
+			}
+		}
+		e.ctorOnly = ctorAll && h["dis"] != "1" && h["fbd"] != "1"
+		e.c = circuit.NewCircuitFromConfig("c", cfg)
+		sibCfg := cfg // same slice headers, same factories
+		sibNow := int64(0)
+		sibCfg.General.TimeKeeper.Now = func() time.Time { sibNow++; return clockBase.Add(time.Duration(sibNow)) }
+		sibCfg.General.ForceOpen, sibCfg.General.ForcedClosed = false, false
+		e.sib = circuit.NewCircuitFromConfig("sib", sibCfg)
 	} else {
 		// the initial override flags arrive through LAYERED construction (ForceOpen in an explicit layer, ForcedClosed
 		// in a default constructor of a manager): merging must keep both, so that clearing one later leaves the other
@@ -294,6 +326,11 @@ func newCenvWith(h map[string]string, mgr *circuit.Manager) *cenv {
 		applyCfg(&lower, map[string]string{"iei": h["iei"]})
 		lm := &circuit.Manager{DefaultCircuitProperties: []circuit.CommandPropertiesConstructor{func(string) circuit.Config { return lower }}}
 		upper := circuit.Config{General: circuit.GeneralConfig{ForceOpen: getB(h, "fo", false)}, Execution: circuit.ExecutionConfig{IgnoreInterrupts: getB(h, "ii", false)}}
+		if h["swap"] == "1" {
+			// the other way round: the circuit's own layer pins ForcedClosed, the kill switch comes from the manager's default
+			lower.General.ForcedClosed, upper.General.ForceOpen = false, false
+			upper.General.ForcedClosed, lower.General.ForceOpen = getB(h, "fc", false), getB(h, "fo", false)
+		}
 		// collectors of all three kinds arrive from EVERY layer (explicit first, explicit second, default constructor):
 		// each of them must be told everything (the fan-out check compares their logs)
 		addRec(&upper, e.recs[1])
@@ -321,7 +358,9 @@ func newCenvWith(h map[string]string, mgr *circuit.Manager) *cenv {
 		}
 		applyCfg(&e.base, hh)
 	}
-	e.c.SetConfigThreadSafe(e.base)
+	if !e.ctorOnly {
+		e.c.SetConfigThreadSafe(e.base)
+	}
 	switch h["pt"] {
 	case "nil":
 		e.c, e.passthru = nil, true
@@ -755,17 +794,24 @@ func (circuitSuite) Gen(r *rand.Rand, i int) Case {
 		pick(r, "unset", "unset", "always", "never", "canceled"))
 	if r.Intn(10) == 0 {
 		// override flags present from the start (they reach the circuit through layered construction)
-		hdr += fmt.Sprintf(" fo=%d fc=%d", r.Intn(2), 1-r.Intn(2)*r.Intn(2))
+		hdr += fmt.Sprintf(" fo=%d fc=%d swap=%d", r.Intn(2), 1-r.Intn(2)*r.Intn(2), r.Intn(2))
 	}
 	pt := ""
 	if r.Intn(16) == 0 {
 		pt = pick(r, "nil", "zero") // C08: a nil circuit and a zero-value circuit run the function untouched
 		hdr += " pt=" + pt
 	}
+	direct := pt == "" && r.Intn(6) == 0
+	if direct {
+		hdr += " direct=1"
+	}
 	c := Case{Header: hdr}
 	tag := func(t string) { c.Tags = append(c.Tags, t) }
 	if pt != "" {
 		tag("passthru-" + pt)
+	}
+	if direct {
+		tag("direct-construction-shared-config")
 	}
 	tag("opener-" + opener)
 	tag("closer-" + closer)
@@ -792,6 +838,29 @@ func (circuitSuite) Gen(r *rand.Rand, i int) Case {
 		c.Ops = append(c.Ops, fmt.Sprintf("setcfg %s=0", flag), plain(), plain())
 		tag("override-over-elapsed-window")
 		armed += 2
+	}
+	if closer == "hystrix" && pt == "" && armed == 0 && r.Intn(5) == 0 {
+		// directed prelude: a TRAIN OF HALF-OPEN PROBES of mixed outcome kinds, each after a full sleep window (timer
+		// fired): successes, plain failures, errors that IMPLEMENT BadRequest but answer false (failures all the same),
+		// real bad requests (neutral), a caller whose context ended (interrupt: neutral).  The circuit must close exactly
+		// when RequiredConcurrentSuccessful successes have completed with no failure between them.
+		c.Ops = append(c.Ops, "open")
+		probes := 3 + r.Intn(6)
+		for k := 0; k < probes; k++ {
+			c.Ops = append(c.Ops, fmt.Sprintf("tick %d", sleep+1))
+			for j := 0; j <= k; j++ { // whichever arming is the current one: its callback has fired
+				c.Ops = append(c.Ops, fmt.Sprintf("fire %d", j))
+			}
+			id++
+			run := pick(r, "nil", "nil", "nil", fmt.Sprintf("e%d", id), fmt.Sprintf("nbad%d", id), fmt.Sprintf("nwbad%d", id), fmt.Sprintf("bad%d", id), fmt.Sprintf("jbad%d", id))
+			ctx := "bg"
+			if r.Intn(6) == 0 {
+				ctx = "cancelled"
+			}
+			c.Ops = append(c.Ops, fmt.Sprintf("exec ctx=%s run=%s radv=0 rcancel=0 fb=none fadv=0 fcancel=0 ans=0000", ctx, run))
+		}
+		tag("probe-train")
+		armed = probes
 	}
 	if (opener == "consec" || opener == "hystrix") && pt == "" && r.Intn(8) == 0 {
 		// directed prelude: failures pile up, the circuit is rebuilt (the factories are asked for NEW logic), one more
@@ -837,6 +906,9 @@ func (circuitSuite) Gen(r *rand.Rand, i int) Case {
 			}
 			id++
 			radv := []int64{0, 0, 1, to - 3, to - 2, to - 1, to, to + 1, 7, 3000}[r.Intn(10)]
+			if to <= 0 && r.Intn(8) == 0 {
+				radv = 1_000_000_001 + int64(r.Intn(3)) // no timeout configured: a call longer than the library's DEFAULT timeout
+			}
 			if radv < 0 {
 				radv = 0
 			}
